@@ -407,7 +407,9 @@ func (b *BlockList) Exists(key string) bool {
 		}
 		offset += idx + 1 // Move past the dot
 
-		if offset < len(key) {
+		// An escaped dot ("\.") is part of a label, not a label separator:
+		// the suffix after it is not a parent domain.
+		if offset < len(key) && !escapedAt(key, offset-1) {
 			suffix := key[offset:]
 			if b.m[suffix] || b.wild[suffix] {
 				return true
@@ -434,10 +436,21 @@ func matchHierarchy(name string, m map[string]bool) bool {
 			return false
 		}
 		offset += idx + 1
-		if offset < len(name) && m[name[offset:]] {
+		// An escaped dot ("\.") is part of a label, not a label separator.
+		if offset < len(name) && !escapedAt(name, offset-1) && m[name[offset:]] {
 			return true
 		}
 	}
+}
+
+// escapedAt reports whether the octet at index i of a presentation-format
+// name is escaped, i.e. preceded by an odd number of backslashes.
+func escapedAt(name string, i int) bool {
+	n := 0
+	for j := i - 1; j >= 0 && name[j] == '\\'; j-- {
+		n++
+	}
+	return n%2 == 1
 }
 
 // (*BlockList).Length length returns the caches length.
